@@ -251,6 +251,23 @@ pub fn check_state(sim: &Sim) -> Vec<Viol> {
             out.push(v("C15", "idle-bound", format!("{} idle connections retained for one origin (token {}) with max_idle_per_host={}", t.idle.len(), t.token, snap.max_idle_per_host)));
         }
     }
+    // the bound is per origin, whatever tables the pool files the connections in: count the idle entries by
+    // the origin each connection was dialled for, over all tokens (including tokens no key maps to any more)
+    world::with(|w| {
+        let mut per_origin: std::collections::BTreeMap<String, usize> = Default::default();
+        for t in &snap.tokens {
+            for e in &t.idle {
+                if let Some(cs) = e.conn.parse::<usize>().ok().and_then(|c| w.conns.get(c)) {
+                    *per_origin.entry(cs.origin.to_ascii_lowercase()).or_default() += 1;
+                }
+            }
+        }
+        for (o, n) in per_origin {
+            if n > snap.max_idle_per_host {
+                out.push(v("C15", "idle-bound-per-origin", format!("{n} idle connections retained for origin {o} (spread over several pool tokens) with max_idle_per_host={}", snap.max_idle_per_host)));
+            }
+        }
+    });
     let mut toks: Vec<usize> = snap.keys.iter().map(|(_, t)| *t).collect();
     toks.sort();
     if toks.windows(2).any(|w| w[0] == w[1]) {
